@@ -25,6 +25,7 @@ for i in ids:
     else:
         focus = ("a SEQUENTIAL defect in a place the earlier attempts did not touch: a rarely used entry point, option or setter, an error path, an interaction between two features, state that survives a reset / close / re-open / expiry, "
                  "an argument at the extreme of its legal range, or a helper shared by two paths of which only one is commonly exercised.")
+    focus = os.environ.get('SEED_FOCUS_SCHED' if i in SCHED else 'SEED_FOCUS_SEQ', focus)
     focus += "\nEarlier attempts for this property (do NOT repeat these ideas or touch the same few lines):\n" + '\n'.join(earlier)
     os.makedirs(os.path.join(d, 'out', i), exist_ok=True)
     wt = os.path.join(d, i)
